@@ -42,6 +42,7 @@ func run(c *fw.Ctx) {
 	g.oversized()
 	g.endless()
 	g.challenges()
+	g.entityHeaders()
 	g.errorBodies() // last: a panic on Create's upload goroutine kills the worker
 	c.Note("exhaustive_parts", "errbodies: full product of 21 error-body contents x 7 lengths (0,1,1023,1024,1025,4096,1 MiB) x 10 Content-Types x statuses x 23 methods; matrix: status 100..599 x 7 body kinds x 23 methods (+ Create early answer x 3 kinds); uploads: full product of answer time x size x writes x stop-on-error x statuses; "+
 		"placements: all assignments of {200,204,102,302,403,404,500,507}; truncation: every prefix of the chosen documents and objects")
@@ -1453,6 +1454,59 @@ func (g *gen) challenges() {
 						cs.DKey = fmt.Sprintf("%s|http %d|challenge %d|body %d|via %s", m.Name, status, si, bi, via)
 						runCase(g.c, cs)
 					}
+				}
+			}
+		}
+	}
+}
+
+// --- entity headers of successful GET / PUT answers -----------------------------------------------
+
+// The object calls read ETag, Last-Modified, Content-Length, Location and
+// Content-Type of a successful answer. Every value a server may put there -
+// empty, a bare prefix, unterminated, weak, over-long, another date format -
+// gives a result or an error (the statement does not say which), never a
+// panic or a hang.
+var hostileEntityHeaders = map[string][]string{
+	"ETag": {"", `W/`, `"`, `W/"`, `W/"x"`, `W/""`, `"unterminated`, `x`, `""`, `"a"b"`, "\\", `"\"`, `"\`, `" "`, `"é"`, `w/"x"`, `W/ "x"`, `"x", "y"`, `*`,
+		`"` + strings.Repeat("t", 70000) + `"`},
+	"Last-Modified": {"", "garbage", "Mon, 99 Jan 2024 00:00:00 GMT", "0", "Monday, 02-Jan-06 15:04:05 GMT", "Mon Jan  2 15:04:05 2006", "Mon, 02 Jan 2006 15:04:05 +0100",
+		"Mon, 02 Jan 2006 15:04:05", "Mon, 02 Jan 2006 15:04:05 GMT GMT", "Mon, 02 Jan 0000 00:00:00 GMT", "Fri, 31 Dec 9999 23:59:59 GMT"},
+	"Content-Length": {"", "-1", "abc", "99999999999999999999", " 5", "5 ", "0x10", "1e3"},
+	"Location":       {"", "://", "%zz", "http://[::1", "relative/path", "/abs%2Fpath", "http://other.example/x", "?q", "#f", "//host", "/a b", "http://dav.example:99999/x", "\x7f"},
+	"Content-Type":   {"", ";;;", "text/calendar; charset", "TEXT/CALENDAR", "text/vcard; =x", "text/x", "/", "text/calendar;charset=\"utf-8", "application/octet-stream"},
+}
+
+func (g *gen) entityHeaders() {
+	names := []string{"ETag", "Last-Modified", "Content-Length", "Location", "Content-Type"}
+	for mi := range methods {
+		m := &methods[mi]
+		if m.Kind != "getobj" && m.Kind != "putobj" {
+			continue
+		}
+		for ni, name := range names {
+			for vi, val := range hostileEntityHeaders[name] {
+				for _, status := range []int{200, 201, 204} {
+					_, mine := g.next()
+					if !mine {
+						continue
+					}
+					cs := g.newCase(m, "entity-headers", name, status)
+					body := []byte(objText(m.Fam, "hdr", false))
+					if name != "Content-Type" {
+						cs.Header = append(cs.Header, [2]string{"Content-Type", objType(m.Fam)})
+					}
+					if name != "ETag" && vi%2 == 0 {
+						cs.Header = append(cs.Header, [2]string{"ETag", `"fine"`})
+					}
+					cs.Header = append(cs.Header, [2]string{name, val})
+					if m.Kind == "getobj" && status != 204 {
+						cs.setBody(body)
+					}
+					cs.Exp = Expect{Verdict: "any"}
+					cs.Class = "http 2xx + hostile " + name + " header"
+					cs.DKey = fmt.Sprintf("%s|2xx|hostile header %d value %d", m.Name, ni, vi)
+					runCase(g.c, cs)
 				}
 			}
 		}
